@@ -5,11 +5,17 @@ func init() {
 		p := &Plan{Property: "C06"}
 		th := o.Tier == "thorough"
 		add := func(c map[string]interface{}) {
-			def := map[string]interface{}{"seq": 2, "batch": 2, "input": 2, "hidden": 2, "B": true, "H0": true, "C0": true, "P": false, "activations": []string{}, "lbr": -1, "input_forget": -1, "split": 0}
+			def := map[string]interface{}{"seq": 2, "batch": 2, "input": 2, "hidden": 2, "B": true, "H0": true, "C0": true, "P": false, "activations": []string{}, "lbr": -1, "input_forget": -1, "split": 0, "dtype": "float32"}
 			for k, v := range c {
 				def[k] = v
 			}
 			p.Jobs = append(p.Jobs, Job{Harness: "opset13.H_C06", Case: def})
+		}
+		// float64 operands (the operators may refuse them; an answer must be right)
+		for _, op := range []string{"RNN", "GRU", "LSTM"} {
+			add(map[string]interface{}{"op": op, "dtype": "float64"})
+			add(map[string]interface{}{"op": op, "dtype": "float64", "B": false, "H0": false, "C0": false, "seq": 1})
+			add(map[string]interface{}{"op": op, "dtype": "float64", "lbr": 1, "P": true})
 		}
 		for _, op := range []string{"RNN", "GRU", "LSTM"} {
 			// sizes
